@@ -203,6 +203,15 @@ func checkDiags(cx *lib.Ctx, diags hcl.Diagnostics, files map[string]*hcl.File, 
 				// cause (an attribute name of a marked object in a type description) from anything else
 				key += ":" + messageShape(d.Detail, sc)
 			}
+			if site(d.Summary) == "error-in-function-call" {
+				// a function declared in the configuration (ext/userfunc) failed inside its result expression, which
+				// is evaluated with arguments that cty has unmarked: which inner message carries the content
+				shape := "other"
+				if strings.Contains(d.Detail, "Duplicate object key; Two different items produced the key") {
+					shape = "user-function-body:duplicate-object-key"
+				}
+				key += ":" + shape
+			}
 			if site(d.Summary) == "hcldec-duplicate-block" && leafMarked[t] {
 				// the recorded finding is about labels taken from the elements of a collection marked only at the
 				// top; an element that carries the mark itself must never become a label
@@ -498,6 +507,7 @@ func run(cx *lib.Ctx) {
 		for _, f := range jsonFamilies {
 			checkJSONSource(cx, f, s, sc.texts, "family")
 		}
+		userFuncStream(cx, s, sc.texts)
 		for _, bf := range bodyFamilies {
 			b := &evalgen.BodyCase{Scope: s, Items: bf.items, Src: bf.src}
 			bc, _, err := evalgen.DecodeBodyCase(b.Encode("C19", "body", nil))
@@ -629,6 +639,19 @@ func replay(cx *lib.Ctx, doc string) {
 		}
 		cx.Res.Sample(cj.Src)
 		checkJSONSource(cx, cj.Src, s, head.Extra.Secrets, "replay")
+	case "userfunc":
+		var cj evalgen.CaseJSON
+		if err := json.Unmarshal([]byte(doc), &cj); err != nil {
+			fail(err)
+			return
+		}
+		s, err := evalgen.DecodeScope(cj.Scope)
+		if err != nil {
+			fail(err)
+			return
+		}
+		cx.Res.Sample(cj.Src)
+		checkUserFunc(cx, cj.Src, s, head.Extra.Secrets, "replay")
 	default:
 		c, _, err := evalgen.DecodeCase(doc)
 		if err != nil {
